@@ -112,7 +112,7 @@ def run_case(case, mods):
 
                             def make_child(slot, snapshot):
                                 def child_fn():
-                                    out[slot] = 'v:' + fr(main.current_tt._seconds) + snapshot
+                                    out[slot] = 'v:' + fr(clock.beats) + snapshot     # the beat it is woken at
                                     return
                                     yield
                                 return child_fn
